@@ -30,13 +30,13 @@ void NTT_Goldilocks_reversePermutation(GElement *dst, GElement *src, u_int64_t s
 }
 void Goldilocks_parcpy(GElement *dst, const GElement *src, uint64_t size, int nt) { if (g_size != 1 || dst != g_dst_ || src != g_cur) g_bad = 1; g_cur = dst; g_copied = 1; }
 /* one pass: stages s .. s+sInc-1 on buffer a, transposed (and, in the final inverse pass, scaled) into a2 */
-static void vf_pass(u_int64_t ps, u_int64_t sInc, u_int64_t maxBatchPow, u_int64_t domainPow, _Bool inverse, GElement *a, GElement *a2, u_int64_t batchSize, u_int64_t nBatches, u_int64_t size)
+static void vf_pass(u_int64_t ps, u_int64_t sInc, u_int64_t maxBatchPow, u_int64_t domainPow, _Bool inverse, GElement *a, GElement *a2, u_int64_t batchSize, u_int64_t nBatches, u_int64_t size, _Bool plain_path)
 {
   if (!g_perm_done || a != g_cur || a2 == a || (a2 != g_dst_ && a2 != g_aux)) g_bad = 1;            /* reads what was written last, writes the other buffer */
   if (ps != g_stage + 1 || sInc < 1 || g_stage + sInc > g_domainPow || domainPow != g_domainPow) g_bad = 1;   /* next stages, in order, inside the domain */
   if (ps + sInc - 1 > s) g_bad = 1;                                                                 /* root(s+si, j): shift s_obj - (s+si) must be >= 0 */
   if (batchSize != (1UL << sInc) || nBatches * batchSize != size) g_bad = 1;
-  _Bool scaling = !(ps + maxBatchPow <= domainPow || !inverse);
+  _Bool scaling = !plain_path;   /* plain_path = the code's own branch condition, lifted verbatim out of the outlined loop */
   _Bool last = (g_stage + sInc == g_domainPow);
   if (scaling != (last && g_inverse)) g_bad = 1;                                                    /* scaling exactly in the final pass of an inverse transform */
   if (scaling) g_scaled = 1;
